@@ -39,6 +39,10 @@ type World struct {
 	Groups   map[string]bool // enabled contract groups ("func NAME group G" blocks)
 }
 
+// LoadOverlay: extra (virtual) source files, by absolute path below the
+// repository: code generated at check time by the repository's own generator.
+var LoadOverlay map[string][]byte
+
 // Load loads the given package patterns from repo with build tag verif.
 func Load(repo string, patterns ...string) (*World, error) {
 	cfg := &packages.Config{
@@ -48,6 +52,7 @@ func Load(repo string, patterns ...string) (*World, error) {
 		BuildFlags: []string{"-tags=verif"},
 		Env:        append(os.Environ(), "GOFLAGS=-mod=mod", "GOPROXY=off", "GOSUMDB=off", "GOTOOLCHAIN=local"),
 		ParseFile: nil,
+		Overlay:   LoadOverlay,
 	}
 	pkgs, err := packages.Load(cfg, patterns...)
 	if err != nil {
@@ -105,6 +110,7 @@ func shorten(s string) string {
 	s = strings.ReplaceAll(s, "database/inmemory", "inmemory")
 	s = strings.ReplaceAll(s, "database/transaction", "transaction")
 	s = strings.ReplaceAll(s, "ovsdb/serverdb", "serverdb")
+	s = strings.ReplaceAll(s, "modelgen/zzgen", "zzgen")
 	s = strings.ReplaceAll(s, "github.com/cenkalti/rpc2", "rpc2")
 	s = strings.ReplaceAll(s, "github.com/go-logr/logr", "logr")
 	s = strings.ReplaceAll(s, "github.com/google/uuid", "uuid")
@@ -138,6 +144,7 @@ func shortenType(s string) string {
 	s = strings.ReplaceAll(s, "database/inmemory", "inmemory")
 	s = strings.ReplaceAll(s, "database/transaction", "transaction")
 	s = strings.ReplaceAll(s, "ovsdb/serverdb", "serverdb")
+	s = strings.ReplaceAll(s, "modelgen/zzgen", "zzgen")
 	s = strings.ReplaceAll(s, "github.com/cenkalti/rpc2", "rpc2")
 	s = strings.ReplaceAll(s, "github.com/go-logr/logr", "logr")
 	s = strings.ReplaceAll(s, "github.com/google/uuid", "uuid")
